@@ -9,6 +9,7 @@ per-string primitives of `impl Alphanumeric for String`, after the repairs `fixe
 `ArrModel/C17Lift.lean` (the array operations).  All statements are for every string (`List Char`), every separator
 including the empty one, every limit including 0 — no bound.
 -/
+set_option linter.unusedSimpArgs false
 namespace ArrModel.C17
 open ArrModel
 
@@ -24,7 +25,7 @@ theorem find_spec (s pat : Str) (i : Nat) :
     | none => rw [find_none s pat hf i] at hp; cases hp
     | some k =>
       rcases Nat.lt_trichotomy k i with hlt | heq | hgt
-      · rw [hfirst k hlt] at *; have := find_some_prefix s pat k hf; simp_all
+      · have h1 := hfirst k hlt; have h2 := find_some_prefix s pat k hf; rw [h1] at h2; cases h2
       · rw [heq]
       · have := find_some_first s pat k hf i hgt; rw [this] at hp; cases hp
 
@@ -230,7 +231,10 @@ theorem strip_spec (s cs : Str) :
     unfold strip at hh
     cases hl : (lstrip s cs).head? with
     | none =>
-      have : lstrip s cs = [] := by cases hx : lstrip s cs <;> simp_all
+      have : lstrip s cs = [] := by
+        cases hx : lstrip s cs with
+        | nil => rfl
+        | cons y ys => rw [hx] at hl; simp at hl
       rw [this] at hh; simp [rstrip] at hh
     | some x =>
       have hx := hhead x hl
@@ -260,7 +264,7 @@ theorem center_spec (s : Str) (w : Nat) (c : Char) :
     · have : w = s.length := by omega
       refine ⟨0, 0, ?_, by omega, .inl rfl⟩
       simp [hw, this]
-    · exact ⟨_, _, by simp [hw], by omega, by omega⟩
+    · exact ⟨(w - s.length + 1) / 2, (w - s.length) / 2, by simp [hw], by omega, by omega⟩
   · intro h; simp [h]
 
 /-- **ljust** -/
@@ -438,7 +442,7 @@ theorem lift2_same_shape (f : α → β → γ) (a : Arr α) (b : Arr β) (ha : 
 
 /-! ## non-vacuity -/
 
-example : split "a-b--c".toList "-".toList none = ["a".toList, "b".toList, [], "c".toList] := by decide
+example : split ['a', '-', 'b', '-', '-', 'c'] ['-'] none = [['a'], ['b'], [], ['c']] := by decide
 example : split ['a', '-', 'b', '-', 'c'] ['-'] (some 2) = [['a'], ['b', '-', 'c']] := by decide
 example : split ['a', '-', 'b'] ['-'] (some 0) = [['a', '-', 'b']] := by decide
 example : split ['a', 'b'] [] none = [[], ['a'], ['b'], []] := by decide
